@@ -167,6 +167,16 @@ fn roundtrips(env: &Env, it: &Item) {
             }
         }
     }
+    // encodings on both sides of 2^16 octets (a 16-bit length anywhere in a codec shows here): proofs of 65 520 / 65 552 / 65 712
+    // octets and commitments of 65 520 / 65 552 octets
+    {
+        let k = key(s, "k0"); let l = 2045usize;
+        let msgs = distinct_msgs(seed, "c09-big", l);
+        if let O::Ok(sig) = zk.sign(&k.sk, &k.pk, Some(b"h"), Some(&msgs)) {
+            for d in [(0..6).collect::<Vec<usize>>(), (0..5).collect(), vec![]] { match zk.proof_gen(&k.pk, &sig, Some(b"h"), None, Some(&msgs), Some(&d)) { O::Ok(p) => objs.push((Kind::Proof, format!("proof k0 L{} |D|={} ({} octets)", l, d.len(), p.len()), p)), o => env.ctx.violation("C09:proof:large:proof_gen", &o.describe(), env.case(&it.id, json!({"L": l, "disclosed": d.len()}))) } }
+        }
+        for m in [2044usize, 2045] { match zk.commit(Some(&msgs[..m])) { O::Ok((c, _)) => objs.push((Kind::Commitment, format!("commitment M{} ({} octets)", m, c.len()), c)), o => env.ctx.violation("C09:commitment:large:commit", &o.describe(), env.case(&it.id, json!({"M": m}))) } }
+    }
     for (k, name, b) in objs {
         if !env.ctx.state(&[it.id.as_bytes(), kind_name(k).as_bytes(), &b]) { continue; }
         let det = json!({"suite": s.name(), "object": name, "octets": hex::encode(&b)});
